@@ -27,10 +27,19 @@ var plans = map[string]plan{
 	"C12": {
 		Quick:    []stage{rapidStage(12_000)},
 		Thorough: []stage{rapidStage(600_000), fuzzStage("FuzzC12", 180)},
-		Rule: "cases are (component schemas incl. formats, patterns, discriminators with $ref branches; value; numeric representation), judged under 8 option sets plus IsMatching and the typed IsMatchingJSON* helpers. non-trivial = the value is rejected AND (some schema error's pointer has >= 2 tokens, or a multi-error has >= 2 members, or a format / discriminator error is reported). distinct = FNV-64a of the canonical case JSON.",
+		Rule:     "cases are (component schemas incl. formats, patterns, discriminators with $ref branches; value; numeric representation), judged under 8 option sets plus IsMatching and the typed IsMatchingJSON* helpers. non-trivial = the value is rejected AND (some schema error's pointer has >= 2 tokens, or a multi-error has >= 2 members, or a format / discriminator error is reported). distinct = FNV-64a of the canonical case JSON.",
 		Assume: []string{
 			"relational oracle: the verdict of the default mode is the reference for the other modes; the pointer is resolved with an independent RFC 6901 walker over the validated value",
 			"errors nested as causes (Origin / oneOf branch errors) are not asserted, as the property states",
+		},
+	},
+	"C19": {
+		Quick:    []stage{rapidStage(8_000), {Name: "rapid-nodetails", Test: "TestRapid", Shards: nShards(), Checks: 4_000, Env: map[string]string{"VERIF_C19_NODETAILS": "1"}}},
+		Thorough: []stage{rapidStage(300_000), {Name: "rapid-nodetails", Test: "TestRapid", Shards: nShards(), Checks: 150_000, Env: map[string]string{"VERIF_C19_NODETAILS": "1"}}, fuzzStage("FuzzC19", 180)},
+		Rule:     "cases are (component schemas incl. formats / patterns / discriminators; a value whose string leaves are unique marker strings not occurring in the schema text; entry point in {VisitJSON, VisitJSON multi-error, ValidateRequest body, multi-error, ValidateResponse body, query parameter}); the second stage runs the same with openapi3.SchemaErrorDetailsDisabled=true in its own processes. Accepted values and rejected values without a marker are discarded (counted). non-trivial = the value is rejected, carries >= 1 marker, and some reported schema error sits at depth >= 1 or is a composition (oneOf/anyOf/allOf/not) error. distinct = FNV-64a of the canonical case JSON.",
+		Assume: []string{
+			"a marker is a string leaf of the value of length >= 6 that does not occur in the schema text; shorter strings are not asserted (they occur in messages by accident)",
+			"property names are not string values in the sense of the quantifier",
 		},
 	},
 }
